@@ -303,6 +303,33 @@ def _step(x, d):
     return 0
 
 
+def _range_cursor(fn, par, var, uses, mod):
+    """pointer local advanced by ONE unconditional `++p;` that is the last statement of the body of a range-for loop, declared in front
+    of the loop and used only inside its body: in iteration number k (0-based) of the loop p == p0 + k.  The iteration number gets a
+    synthetic induction variable `$it<line>` (recorded on the loop node as `_iter`, with the range expression as its extent).
+    -> (loop node, synthetic Var node, 0) or None"""
+    blk = par.get(id(mod))
+    loop = par.get(id(blk)) if blk is not None else None
+    if blk is None or blk.get("k") != "Block" or loop is None or loop.get("k") != "ForRange" or loop.get("body") is not blk:
+        return None
+    stmts = blk.get("s") or []
+    if not stmts or stmts[-1] is not mod:
+        return None
+    if any(y.get("k") in ("Continue", "Goto") for y in walk(blk, prune=lambda z: z.get("k") in ("For", "While", "Do", "ForRange", "Lambda"))):
+        return None
+    if id(var) in {id(y) for y in walk(loop)}:
+        return None
+    inside = {id(y) for y in walk(blk)}
+    if any(id(u) not in inside for u in uses):
+        return None
+    iv = loop.get("_iter")
+    if iv is None:
+        iv = {"k": "Var", "n": "$it%s" % (loop.get("l") or loop.get("i") or ""), "d": -(loop.get("i") or 1) - 1000000, "t": None, "l": loop.get("l"), "_synthetic": True}
+        loop["_iter"] = iv
+    loop["_cursor_step"] = mod
+    return loop, iv, 0
+
+
 def _cursor_loop(fn, par, var, uses):
     """pointer local advanced ONLY by the header of one counted for loop, in lock-step with its induction variable
     (`for(Index i(0); i < n; ++i, ++p)`), declared in front of the loop and used only inside it:
@@ -320,6 +347,9 @@ def _cursor_loop(fn, par, var, uses):
             mods.append(p)
     if len(mods) != 1 or not _step(mods[0], d):
         return None
+    rc = _range_cursor(fn, par, var, uses, mods[0])
+    if rc is not None:
+        return rc
     x, q = mods[0], par.get(id(mods[0]))
     while q is not None and q.get("k") == "Bin" and q.get("op") == ",":
         x, q = q, par.get(id(q))
@@ -475,7 +505,7 @@ def resolve_aliases(fn, value_aliases=True, ref_aliases=True, ptr_aliases=True, 
         if d in cursors:
             # the header step of the cursor itself is not a use to be rewritten
             loop = cursors[d][0]
-            hdr = {id(y) for y in walk(loop.get("inc"))}
+            hdr = {id(y) for y in walk(loop.get("inc") if loop.get("k") == "For" else loop.get("_cursor_step"))}
             my_uses = [u for u in my_uses if id(u) not in hdr]
         ok_uses = []
         for u in my_uses:
